@@ -1080,11 +1080,16 @@ def hash_array_along_axis(arr: ndarray, axis: int = 0) -> List[int]:
 
 def all_array_equal(it: Iterable) -> bool:
     """
-    Return ``True`` if all array elements of ``it`` are equal by hashing
-    the bytes representation of each array. Note that this is not
-    thread-proof.
+    Return ``True`` if all array elements of ``it`` are equal (as by
+    :func:`numpy.array_equal`, so irrespective of their data type),
+    ``False`` if there are none. Elements that are not arrays raise an
+    ``AttributeError``.
     """
-    return len(set(hash(i.tobytes()) for i in it)) == 1
+    arrays = list(it)
+    for arr in arrays:
+        # as when the bytes representations were compared
+        arr.tobytes
+    return len(arrays) > 0 and all(np.array_equal(arrays[0], arr) for arr in arrays[1:])
 
 
 def progressbar(iterable: Iterable, *args, **kwargs):
